@@ -524,6 +524,46 @@ fn fix_tparams_with_generic_annot(parser: &mut SourceParser, parameters: &mut Ve
     assert(exists|end: Location| location == #[trigger] joined(start_loc, end));
 //@end
 
+// ---- class and interface declarations: the declaration and its member block end at the same closing brace
+//@extract crates/samlang-ast/src/source.rs :: struct ExtendsOrImplementsNodes
+//@end
+//@extract crates/samlang-ast/src/source.rs :: struct InterfaceMembersCommon
+//@end
+//@extract crates/samlang-ast/src/source.rs :: struct InterfaceDeclarationCommon
+//@end
+
+//@extractblock crates/samlang-parser/src/source_parser.rs :: mod toplevel_parser / fn parse_class
+//@from let (end_loc, ending_associated_comments) =
+//@to ending_associated_comments, }, }
+//@wrap fn class_node<D, M>(parser: &mut SourceParser, mut loc: Location, members_start_loc: Location, associated_comments: Vec<Comment>, private: bool, name: Id, type_parameters: Option<annotation::TypeParameters>, extends_or_implements_nodes: Option<ExtendsOrImplementsNodes>, type_definition: D, members: Vec<M>) -> (r: InterfaceDeclarationCommon<D, M>)
+//@contract
+    ensures
+      r.name == name && r.members.members == members
+        && encloses(r.loc, loc) && encloses(r.members.loc, members_start_loc)
+        // the declaration (header so far ∪ closing brace) and its member block (opening ∪ closing brace) end at the same token
+        && exists|end: Location| r.loc == #[trigger] joined(loc, end) && r.members.loc == joined(members_start_loc, end),  // :declaration_and_member_block_end_at_the_same_closing_brace
+//@before let (end_loc, ending_associated_comments) =
+    let ghost loc0 = loc;
+//@before InterfaceDeclarationCommon {
+    assert(loc == joined(loc0, end_loc));
+//@end
+
+//@extractblock crates/samlang-parser/src/source_parser.rs :: mod toplevel_parser / fn parse_interface
+//@from let (end_loc, ending_associated_comments) =
+//@to ending_associated_comments, }, }
+//@wrap fn interface_node<M>(parser: &mut SourceParser, mut loc: Location, members_start_loc: Location, associated_comments: Vec<Comment>, private: bool, name: Id, type_parameters: Option<annotation::TypeParameters>, extends_or_implements_nodes: Option<ExtendsOrImplementsNodes>, members: Vec<M>) -> (r: InterfaceDeclarationCommon<(), M>)
+//@contract
+    ensures
+      r.name == name && r.members.members == members
+        && encloses(r.loc, loc) && encloses(r.members.loc, members_start_loc)
+        // the declaration (header so far ∪ closing brace) and its member block (opening ∪ closing brace) end at the same token
+        && exists|end: Location| r.loc == #[trigger] joined(loc, end) && r.members.loc == joined(members_start_loc, end),  // :declaration_and_member_block_end_at_the_same_closing_brace
+//@before let (end_loc, ending_associated_comments) =
+    let ghost loc0 = loc;
+//@before InterfaceDeclarationCommon {
+    assert(loc == joined(loc0, end_loc));
+//@end
+
 // =====================================================================================
 // the language server's position -> node search: a name's range is the name, nothing more
 // =====================================================================================
